@@ -42,26 +42,32 @@ for f in os.listdir(os.path.join(wt, demodir)):
 if os.path.exists(os.path.join(wt, "NOTES.md")):
     shutil.copy(os.path.join(wt, "NOTES.md"), os.path.join(out, "NOTES.md"))
 # 2. run the checks against /repo with the patch applied
-rc, o = sh("git -C /repo status --short", "/repo")
-if o.strip():
-    print("/repo is not clean, aborting:", o); sys.exit(2)
-rc, o = sh("git -C /repo apply %s" % os.path.join(out, "patch.diff"), "/repo")
-if rc != 0:
-    print("patch does not apply to /repo:", o); sys.exit(2)
+USE_WT = os.environ.get("SEED_USE_WT") == "1"   # first pass: run the checks against the scratch worktree (patch applied there), /repo untouched
+if not USE_WT:
+    rc, o = sh("git -C /repo status --short", "/repo")
+    if o.strip():
+        print("/repo is not clean, aborting:", o); sys.exit(2)
+    rc, o = sh("git -C /repo apply %s" % os.path.join(out, "patch.diff"), "/repo")
+    if rc != 0:
+        print("patch does not apply to /repo:", o); sys.exit(2)
 results = {}
 try:
     for p in props:
         t0 = time.time()
-        rc, o = sh("./check %s quick" % p, "/verif", 3000)
+        rc, o = sh(("VERIF_REPO=%s VERIF_EVIDENCE_DIR=/var/tmp/seed-ev-%s " % (wt, sid) if USE_WT else "") + "./check %s quick" % p, "/verif", 3000)
         lines = [l for l in o.splitlines() if l.startswith(("VIOLATION", "MACHINERY", "KNOWN-FINDING")) or l.startswith("  harness")]
         results[p] = {"exit": rc, "seconds": round(time.time() - t0, 1), "lines": lines[:8]}
         print(p, "exit", rc, "%.0fs" % (time.time() - t0))
         for l in lines[:6]:
             print("   ", l[:260])
 finally:
-    sh("git -C /repo checkout -- .", "/repo")
-    # evidence files were rewritten by runs on a modified tree: restore the committed ones
-    sh("git checkout -- evidence", "/verif")
+    if not USE_WT:
+        sh("git -C /repo checkout -- .", "/repo")
+        # evidence files were rewritten by runs on a modified tree: restore the committed ones
+        sh("git checkout -- evidence", "/verif")
+    else:
+        shutil.rmtree("/var/tmp/seed-ev-%s" % sid, ignore_errors=True)
+meta["checks_run_against"] = "scratch worktree with the change applied (VERIF_REPO)" if USE_WT else "/repo with the patch applied, reverted afterwards"
 meta["check_results"] = results
 meta["detected_by"] = [p for p, r in results.items() if r["exit"] == 1]
 json.dump(meta, open(os.path.join(out, "meta.json"), "w"), indent=1)
